@@ -103,7 +103,41 @@ def nested(t, v, rng, style=None, allow_ambiguous=False):
     return entries
 
 
+PAD = {"rng": None}     # set while a layout whose items are padded with whitespace is being written
+
+
+def pad_text(s, where="spread-cell"):
+    """cell / item text `s` with whitespace of any kind (every c with c.isspace(): ASCII, NBSP, U+2003, U+3000, U+0085, …)
+    put around it when a padded layout is being written: every cell and every item of a packed cell is trimmed on
+    reading, so the padded text is the same data.  (Zero-width space / BOM are not whitespace: never padding.)"""
+    rng = PAD["rng"]
+    if rng is None or rng.random() < 0.55:
+        return s
+
+    def ws():
+        k = rng.choice([1, 1, 2])
+        return "".join(rng.choice(G.WS_UNICODE) if rng.random() < 0.7 else rng.choice(G.WS_ASCII) for _ in range(k))
+
+    side = rng.choice(["left", "right", "both"])
+    left = ws() if side != "right" else ""
+    right = ws() if side != "left" else ""
+    kinds = {("unicode-space" if ord(c) >= 128 else "ascii-space") for c in left + right}
+    for kd in kinds:
+        FEAT[f"pad.{kd}.{where}"] += 1
+    return left + s + right
+
+
+def pad_leaves(n):
+    if isinstance(n, str):
+        return pad_text(n, "packed-item")
+    return [pad_leaves(x) for x in n]
+
+
 def join(n):
+    """cell text of a nested list, written by the real join_from_lists (which escapes `\\ | ;` and nothing else:
+    padding put around the leaves beforehand ends up next to the separators)"""
+    if PAD["rng"] is not None:
+        n = pad_leaves(n)
     return _cp().join_from_lists(n)
 
 
@@ -160,7 +194,7 @@ def encode(t, v, rng, prefix="", out=None, top=True, sj=None):
     out = {} if out is None else out
     k = R.kind(t)
     if k in R.BASIC:
-        out[prefix] = basic_text(repr(v) if k == "float" else v)
+        out[prefix] = pad_text(basic_text(repr(v) if k == "float" else v))
         return out
     if k == "model":
         can_pack = not top
@@ -186,7 +220,7 @@ def encode(t, v, rng, prefix="", out=None, top=True, sj=None):
     if k == "any":
         if all(isinstance(x, str) for x in v) and rng.random() < 0.5:
             for i, x in enumerate(v):
-                out[f"{prefix}.{i+1}"] = x
+                out[f"{prefix}.{i+1}"] = pad_text(x)
         else:
             out[prefix] = join(v)
         return out
@@ -200,7 +234,7 @@ def encode(t, v, rng, prefix="", out=None, top=True, sj=None):
                 if depth(n) == 1 and rng.random() < 0.4:
                     FEAT["list.semicolon-cell"] += 1
                     CP = type(_cp())
-                    out[prefix] = ";".join(CP.escape_string(x) for x in n) + (";" if len(n) == 1 else "")
+                    out[prefix] = ";".join(pad_text(CP.escape_string(x), "packed-item") for x in n) + (";" if len(n) == 1 else "")
                 else:
                     FEAT["list.pipe-cell"] += 1
                     out[prefix] = join(n)
@@ -234,7 +268,7 @@ def encode(t, v, rng, prefix="", out=None, top=True, sj=None):
 def pack_cell(t, v, rng):
     """value as ONE cell (headers that are remapped by exact match cannot be spread)"""
     if R.kind(t) in R.BASIC:
-        return basic_text(v)
+        return pad_text(basic_text(v))
     try:
         n = nested(t, v, rng)
     except Ambiguous:
@@ -285,7 +319,7 @@ def flow_short(t, sj, v, rng):
             w = dict(v[n])
             for wn, wt, wd in ft[2]:
                 if wn == "body":
-                    out[sj["main"][0]] = w["body"]
+                    out[sj["main"][0]] = pad_text(w["body"])
                 elif w[wn] != wd:
                     encode(wt, w[wn], rng, f"webhook.{wn}", out, False, sj)
             continue
@@ -328,14 +362,27 @@ def variants(si, v, rng, n_random, n_perm):
         if cells[0] == "ok":
             outs.append(("unparse", dict(cells[1])))
     for _ in range(n_random):
-        if meta["kind"] == "flow" and rng.random() < 0.7:
-            e = flow_short(t, sj, v, rng)
-            if e is not None:
-                outs.append(("short", e))
+        # 30 % of the hand-built layouts are written with whitespace around cells and around the items of packed cells
+        padded = rng.random() < 0.3
+        PAD["rng"] = rng if padded else None
+        sfx = "+padded" if padded else ""
+        try:
+            if meta["kind"] == "flow" and rng.random() < 0.7:
+                e = flow_short(t, sj, v, rng)
+                if e is not None:
+                    outs.append(("short" + sfx, e))
+                else:
+                    outs.append(("encode" + sfx, encode(t, v, rng, sj=sj)))
             else:
-                outs.append(("encode", encode(t, v, rng, sj=sj)))
-        else:
-            outs.append(("encode", encode(t, v, rng, sj=sj)))
+                outs.append(("encode" + sfx, encode(t, v, rng, sj=sj)))
+        finally:
+            PAD["rng"] = None
+        if padded and meta["kind"] == "flow":
+            # the cell that selects the meaning of `message_text` (the row type) is read untrimmed by the flow row
+            # model's header_name_to_field_name_with_context (finding reported; KeyError on ' send_message'): not padded
+            tcol = (FLOW.get("spec") or sj)["main"][1]
+            if tcol in outs[-1][1]:
+                outs[-1][1][tcol] = v[tcol]
     base = list(outs)
     for _ in range(n_perm if base else 0):
         tag, cols = rng.choice(base)
@@ -639,7 +686,11 @@ def structure(rng, t, v, names):
     """replace the lists of records of a generated value by structured ones (see structured_records)"""
     for fn, ft, d in t[2]:
         if R.kind(ft) == "list" and R.kind(ft[1]) == "model" and rng.random() < 0.7:
-            recs = structured_records(rng, ft[1], names, rng.choice([2, 3, 3, 4]))
+            n = rng.choice([2, 3, 3, 4])
+            if rng.random() < 2 * G.P_LONG:
+                n = rng.choice(G.LONG)
+                G.STRATA["lists.long(10-12).structured-records"] += 1
+            recs = structured_records(rng, ft[1], names, n)
             if recs:
                 v[fn] = recs
     return v
@@ -649,6 +700,9 @@ def structured_edges(rng, names):
     """router-style edges: one `from`, one condition type / variable for all, a value per edge, names for the
     leading edges only"""
     n = rng.choice([2, 3, 3, 4])
+    if rng.random() < 2 * G.P_LONG:
+        n = rng.choice(G.LONG)      # a menu with ten or more options
+        G.STRATA["lists.long(10-12).router-style-edges"] += 1
     nb = lambda: G.gen_str(rng, names, True, nonblank=True)  # noqa: E731
     shared = {"from_": nb() if rng.random() < 0.8 else None, "type": nb() if rng.random() < 0.8 else None,
               "variable": nb() if rng.random() < 0.6 else None}
@@ -710,6 +764,7 @@ def gen_cases(ck, per_schema, flow_n, n_random, n_perm):
             continue
         got += 1
         cases.append((fi, v, rng.getrandbits(48), n_random, n_perm))
+    c07.take_value_strata(ck)
     return cases
 
 
@@ -723,8 +778,12 @@ def run(ck: core.Check):
         "lengths (longest first / middle / last) next to broadcast cells; 40 % of the values hold structured lists of records "
         "(shared sub-field values, sub-fields filled for the leading records only; router-style edges for flow rows); flow rows with short "
         "headers from/condition/condition_value/condition_var/condition_variable/condition_type/condition_name/message_text/"
-        "_nodeId/_ui_type/_ui_position or long forms, mixed) + permutations of columns of different top-level fields. Values: "
-        "representable domain of C07 over the same schema family and alphabet. distinct = distinct (schema, value); a value is "
+        "_nodeId/_ui_type/_ui_position or long forms, mixed) + permutations of columns of different top-level fields; 30 % of the "
+        "hand-built layouts are PADDED: whitespace of any kind (every code point with str.isspace(): ASCII, NBSP, U+0085, U+1680, "
+        "U+2000–U+200A, U+2028/9, U+202F, U+205F, U+3000, U+001C–U+001F) around cells and around the items of packed cells, next to "
+        "the | and ; separators — trimmed on reading in every layout. Values: "
+        "representable domain of C07 over the same schema family and alphabet (incl. strings with a zero-width space / BOM at an "
+        "edge, which no layout trims, exotic whitespace inside strings, and lists of 10–12 entries: records, lists, edges). distinct = distinct (schema, value); a value is "
         "non-trivial by construction (≥ 2 layouts compared)."
     )
     ck.assumptions = [
@@ -753,7 +812,10 @@ def run(ck: core.Check):
                  "feature.star.broadcast", "feature.star.list", "feature.star.unequal-lists",
                  "feature.star.unequal-lists.longest-first", "feature.star.unequal-lists.longest-middle",
                  "feature.star.unequal-lists.longest-last", "feature.star.unequal+broadcast",
-                 "feature.star.unequal+broadcast.last-list-shorter", "values.router-style-edges"):
+                 "feature.star.unequal+broadcast.last-list-shorter", "values.router-style-edges",
+                 "layout.encode+padded", "layout.short+padded", "feature.pad.unicode-space.packed-item",
+                 "feature.pad.ascii-space.packed-item", "feature.pad.unicode-space.spread-cell",
+                 "values.strings.zero-width-at-edge(kept by strip)"):
         if not ck.strata.get(need):
             raise core.Infra(f"generator self-check: stratum {need} is empty")
     if (ck.tie_breaks or not ck.lean.ok) and not ck.violations and quick:
